@@ -270,10 +270,14 @@ impl serde::Serializer for Serializer {
 
 	fn serialize_struct(
 		self,
-		_name: &'static str,
+		name: &'static str,
 		len: usize,
 	) -> Result<Self::SerializeStruct, Self::Error> {
-		self.serialize_map(Some(len))
+		if name == NUMBER_TOKEN {
+			Ok(SerializeMap::Number(None))
+		} else {
+			self.serialize_map(Some(len))
+		}
 	}
 
 	fn serialize_struct_variant(
@@ -772,15 +776,8 @@ impl serde::ser::SerializeMap for SerializeMap {
 	{
 		match self {
 			Self::Number(_) => Err(SerializeError::MalformedHighPrecisionNumber),
-			Self::Object { obj, next_key } => {
-				let key = key.serialize(KeySerializer)?;
-
-				if obj.is_empty() && key == NUMBER_TOKEN {
-					*self = Self::Number(None)
-				} else {
-					*next_key = Some(key);
-				}
-
+			Self::Object { next_key, .. } => {
+				*next_key = Some(key.serialize(KeySerializer)?);
 				Ok(())
 			}
 		}
@@ -822,7 +819,16 @@ impl serde::ser::SerializeStruct for SerializeMap {
 	where
 		T: ?Sized + Serialize,
 	{
-		serde::ser::SerializeMap::serialize_entry(self, key, value)
+		match self {
+			// High-precision number: a struct named `NUMBER_TOKEN` with a
+			// single field of the same name holding the lexical form.
+			Self::Number(n) if key == NUMBER_TOKEN => {
+				*n = Some(value.serialize(StringNumberSerializer)?);
+				Ok(())
+			}
+			Self::Number(_) => Err(SerializeError::MalformedHighPrecisionNumber),
+			Self::Object { .. } => serde::ser::SerializeMap::serialize_entry(self, key, value),
+		}
 	}
 
 	fn end(self) -> Result<Self::Ok, Self::Error> {
